@@ -6,6 +6,7 @@ from sa import AnalysisError
 from sa.kinds import (key, utext, call_name, recv_text, calls_in, node_calls, all_stores, all_mutator_calls,
                       store_targets, canon_compare, oriented)
 from sa.cfg import walk_calls, walk_nodes
+from sa.astutil import canon_text as ct
 
 EXPLANATION = (
     "Decided part of C04. The sum identity is definitional (size_remaining is derived), so the content is that "
@@ -38,7 +39,7 @@ def void_group(ctx, rep, R):
             t = utext(n.ast.targets[0])
             if t.startswith("order.simulated."):
                 gs = [(utext(g.exprs[0]), pol) for g, pol in cfg.guards(n.id)]
-                on_runner = any("order.lookup ==" in a and pol for a, pol in gs)
+                on_runner = any("order.lookup" in a and "==" in a and pol for a, pol in gs)
                 if on_runner:
                     stores.setdefault(t[len("order.simulated."):], []).append((utext(n.ast.value), gs))
     need = {"size_matched": {"0", "0.0"}, "average_price_matched": {"0", "0.0"}, "matched": {"[]"},
@@ -212,7 +213,7 @@ def run(ctx, rep):
     good = len(rb) == 1
     if good:
         gs = [(utext(g.exprs[0]), pol) for g, pol in cfgv.guards(rb[0].id)]
-        good = gs == [("self.size_matched < min_fill_size", True)]
+        good = gs == [(ct("self.size_matched < min_fill_size"), True)]
         after = [n for n in cfgv.live_nodes() if n.kind == "stmt" and utext(n.ast) == "self.size_cancelled += self.size_remaining"]
         good = good and len(after) == 1 and cfgv.dominates(rb[0].id, after[0].id)
     rep.check(good, "R4", key(vw, None, "VWAP roll-back: below the minimum fill nothing is matched and the order is cancelled"), vw)
